@@ -3,4 +3,555 @@ From Coq Require Import List ZArith Bool Lia.
 From Bfe Require Import lib.Val lib.ValProofs model.SpdyServer run.RunC40.
 Import ListNotations.
 Open Scope Z_scope.
-Lemma c40_placeholder : True. Proof. exact I. Qed.
+
+(* ---------- int32 helpers ---------- *)
+Lemma wrap32_small z : - 2^31 <= z < 2^31 -> wrap32 z = z.
+Proof. intros H. unfold wrap32. rewrite Z.mod_small; lia. Qed.
+Lemma flow_add_ok cur n : 0 <= cur -> 0 <= n -> cur + n <= 65536 -> flow_add cur n = Some (cur + n).
+Proof.
+  intros H1 H2 H3. unfold flow_add.
+  rewrite (wrap32_small (2^31 - 1 - cur)) by (change (2^31) with 2147483648; lia).
+  destruct (2^31 - 1 - cur <? n) eqn:E.
+  - apply Z.ltb_lt in E. change (2^31) with 2147483648 in E. lia.
+  - rewrite wrap32_small by (change (2^31) with 2147483648; lia). reflexivity.
+Qed.
+Lemma zmin_le_l a b : zmin a b <= a.
+Proof. unfold zmin. destruct (a <? b) eqn:E; [lia | apply Z.ltb_ge in E; lia]. Qed.
+Lemma zmin_le_r a b : zmin a b <= b.
+Proof. unfold zmin. destruct (a <? b) eqn:E; [apply Z.ltb_lt in E; lia | lia]. Qed.
+
+(* ---------- the inbound flow-control invariant ---------- *)
+Fixpoint sumbuf (l : list stream) : Z := match l with [] => 0 | s :: r => buf s + sumbuf r end.
+Definition sok (s : stream) : Prop :=
+  0 <= sinflow s /\ 0 <= buf s /\ sinflow s + buf s <= INITWIN /\ (sstate s = 1 -> hasbody s = true).
+(* session window plus everything buffered for handlers never exceeds what was advertised (65536):
+   the server never holds more inbound DATA than it advertised, per stream and per session *)
+Definition Inv (c : conn) : Prop :=
+  0 <= cinflow c /\ cinflow c + sumbuf (strs c) <= INITWIN /\ Forall sok (strs c).
+
+Lemma find_s_in id l s : find_s id l = Some s -> In s l /\ sid s = id.
+Proof.
+  induction l as [|x l IH]; simpl; [discriminate|].
+  destruct (sid x =? id) eqn:E.
+  - intros H. inversion H; subst. apply Z.eqb_eq in E. auto.
+  - intros H. destruct (IH H). auto.
+Qed.
+Lemma find_s_ok id l s : find_s id l = Some s -> Forall sok l -> sok s.
+Proof. intros H F. apply find_s_in in H. destruct H as [H _]. rewrite Forall_forall in F. auto. Qed.
+Lemma sumbuf_update id l s s' :
+  find_s id l = Some s -> sid s' = id -> sumbuf (update_s s' l) = sumbuf l - buf s + buf s'.
+Proof.
+  intros H E. induction l as [|x l IH]; simpl in *; [discriminate|].
+  rewrite E. destruct (sid x =? id) eqn:Ex.
+  - inversion H; subst. simpl. lia.
+  - simpl. rewrite IH by exact H. lia.
+Qed.
+Lemma forall_update l s' : Forall sok l -> sok s' -> Forall sok (update_s s' l).
+Proof.
+  intros F Hs. induction l as [|x l IH]; simpl; [constructor|].
+  inversion F; subst. destruct (sid x =? sid s'); constructor; auto.
+Qed.
+Lemma forall_remove id l : Forall sok l -> Forall sok (remove_s id l).
+Proof.
+  intros F. induction l as [|x l IH]; simpl; [constructor|].
+  inversion F; subst. destruct (sid x =? id); [assumption|constructor; auto].
+Qed.
+Lemma sumbuf_nonneg l : Forall sok l -> 0 <= sumbuf l.
+Proof. induction 1 as [|x l Hx _ IH]; simpl; [lia|]. destruct Hx as (_ & ? & _). lia. Qed.
+Lemma sumbuf_remove id l : Forall sok l -> sumbuf (remove_s id l) <= sumbuf l.
+Proof.
+  intros F. induction l as [|x l IH]; simpl; [lia|].
+  inversion F as [|? ? Hx Hl]; subst. destruct (sid x =? id); simpl.
+  - destruct Hx as (_ & ? & _). lia.
+  - specialize (IH Hl). lia.
+Qed.
+
+(* stream updates that leave the inbound fields alone *)
+Lemma sok_out s ofl rep q : sok s -> sok (s_with_out s ofl rep q).
+Proof. unfold sok. simpl. auto. Qed.
+Lemma sok_bclose s : sok s -> sok (s_bclose s).
+Proof. unfold sok. simpl. auto. Qed.
+
+Lemma Inv_close c id : Inv c -> Inv (close_s c id).
+Proof.
+  intros (H1 & H2 & H3). unfold Inv, close_s. simpl.
+  pose proof (sumbuf_remove id (strs c) H3). split; [lia|]. split; [lia|]. apply forall_remove. exact H3.
+Qed.
+Lemma Inv_upd_same c id s s' :
+  Inv c -> find_s id (strs c) = Some s -> sid s' = id -> buf s' = buf s -> sok s' -> Inv (upd c s').
+Proof.
+  intros (H1 & H2 & H3) Hf Hid Hb Hs. unfold Inv, upd. simpl.
+  rewrite (sumbuf_update id (strs c) s s' Hf Hid). split; [lia|]. split; [lia|]. apply forall_update; assumption.
+Qed.
+Lemma Inv_set_cflow c n : Inv c -> Inv (set_cflow c n).
+Proof. unfold Inv. simpl. auto. Qed.
+Lemma Inv_reset c id code : Inv c -> Inv (fst (reset_stream c id code)).
+Proof.
+  intros H. unfold reset_stream. destruct (find_s id (strs c)); simpl; [apply Inv_close|]; exact H.
+Qed.
+Lemma Inv_go_away c code : Inv c -> Inv (fst (go_away c code)).
+Proof. intros H. unfold go_away. destruct (0 <=? goaway c); simpl; exact H. Qed.
+
+Lemma Inv_take_head c id : Inv c -> Inv (fst (take_head c id)).
+Proof.
+  intros H. unfold take_head.
+  destruct (find_s id (strs c)) as [s|] eqn:Hf; [|exact H].
+  destruct (outq s) as [|[[k n] fin] q]; [exact H|].
+  pose proof (find_s_in _ _ _ Hf) as [_ Hid].
+  assert (Hs : sok s) by (destruct H as (_ & _ & F); eapply find_s_ok; eauto).
+  destruct (negb (k =? 0)).
+  - simpl. eapply Inv_upd_same; [exact H|exact Hf|exact Hid|reflexivity|apply sok_out; exact Hs].
+  - cbv zeta. set (allowed := zmin (zmin (soflow s) (cflow c)) MAXFRAME).
+    destruct ((n =? 0) || (n <=? allowed)).
+    + assert (H1 : Inv (set_cflow (upd c (s_with_out s (soflow s - n) (replied s) q)) (cflow c - n))).
+      { apply Inv_set_cflow. eapply Inv_upd_same; [exact H|exact Hf|exact Hid|reflexivity|apply sok_out; exact Hs]. }
+      destruct fin; simpl; [apply Inv_close|]; exact H1.
+    + simpl. apply Inv_set_cflow. eapply Inv_upd_same; [exact H|exact Hf|exact Hid|reflexivity|apply sok_out; exact Hs].
+Qed.
+Lemma Inv_sched f : forall c, Inv c -> Inv (fst (sched f c)).
+Proof.
+  induction f as [|f IH]; intros c H; cbn [sched]; [exact H|].
+  destruct (muted c); [exact H|].
+  destruct (find head_nocost (strs c)) as [s|].
+  - pose proof (Inv_take_head c (sid s) H) as H1. destruct (take_head c (sid s)) as [c1 f1].
+    specialize (IH c1 H1). destruct (sched f c1) as [c2 f2]. exact IH.
+  - destruct (find (head_sendable c) (strs c)) as [s|]; [|exact H].
+    pose proof (Inv_take_head c (sid s) H) as H1. destruct (take_head c (sid s)) as [c1 f1].
+    specialize (IH c1 H1). destruct (sched f c1) as [c2 f2]. exact IH.
+Qed.
+Lemma Inv_tickle c : Inv c -> Inv (fst (tickle c)).
+Proof. intros H. unfold tickle. apply Inv_sched. exact H. Qed.
+Lemma Inv_then_tickle r : Inv (fst r) -> Inv (fst (then_tickle r)).
+Proof.
+  destruct r as [c fs]. simpl. intros H. pose proof (Inv_tickle c H) as H1.
+  destruct (tickle c) as [c' fs']. exact H1.
+Qed.
+Lemma Inv_reset_tickle c id code : Inv c -> Inv (fst (then_tickle (reset_stream c id code))).
+Proof. intros H. apply Inv_then_tickle. apply Inv_reset. exact H. Qed.
+
+Lemma Inv_init maxs : Inv (init_conn maxs).
+Proof. unfold Inv, init_conn, INITWIN. simpl. split; [lia|]. split; [lia|constructor]. Qed.
+
+(* ---------- every event preserves the invariant and never reaches a panic ---------- *)
+Definition nobug (fs : list val) : Prop := has_bug fs = false.
+Lemma nobug_nil : nobug []. Proof. reflexivity. Qed.
+Lemma has_bug_app a b : has_bug (a ++ b) = has_bug a || has_bug b.
+Proof. unfold has_bug. apply existsb_app. Qed.
+Lemma nobug_emit c fs : nobug fs -> nobug (emit c fs).
+Proof. intros H. unfold emit. destruct (muted c); [reflexivity|exact H]. Qed.
+
+Lemma nobug_take_head c id : nobug (snd (take_head c id)).
+Proof.
+  unfold take_head.
+  destruct (find_s id (strs c)) as [s|]; [|reflexivity].
+  destruct (outq s) as [|[[k n] fin] q]; [reflexivity|].
+  destruct (negb (k =? 0)); [destruct (k =? 9); reflexivity|].
+  cbv zeta. destruct ((n =? 0) || (n <=? zmin (zmin (soflow s) (cflow c)) MAXFRAME)); [|reflexivity].
+  destruct fin; [|reflexivity]. simpl. destruct (sstate s =? 1); reflexivity.
+Qed.
+Lemma nobug_sched f : forall c, nobug (snd (sched f c)).
+Proof.
+  induction f as [|f IH]; intros c; cbn [sched]; [reflexivity|].
+  destruct (muted c); [reflexivity|].
+  destruct (find head_nocost (strs c)) as [s|].
+  - pose proof (nobug_take_head c (sid s)) as H1. destruct (take_head c (sid s)) as [c1 f1].
+    specialize (IH c1). destruct (sched f c1) as [c2 f2]. simpl in *.
+    unfold nobug in *. rewrite has_bug_app, H1, IH. reflexivity.
+  - destruct (find (head_sendable c) (strs c)) as [s|]; [|reflexivity].
+    pose proof (nobug_take_head c (sid s)) as H1. destruct (take_head c (sid s)) as [c1 f1].
+    specialize (IH c1). destruct (sched f c1) as [c2 f2]. simpl in *.
+    unfold nobug in *. rewrite has_bug_app, H1, IH. reflexivity.
+Qed.
+Lemma nobug_tickle c : nobug (snd (tickle c)).
+Proof. apply nobug_sched. Qed.
+Lemma nobug_then_tickle r : nobug (snd r) -> nobug (snd (then_tickle r)).
+Proof.
+  destruct r as [c fs]. simpl. intros H. pose proof (nobug_tickle c) as H1.
+  destruct (tickle c) as [c' fs']. simpl in *. unfold nobug in *. rewrite has_bug_app, H, H1. reflexivity.
+Qed.
+Lemma nobug_reset c id code : nobug (snd (reset_stream c id code)).
+Proof.
+  unfold reset_stream. destruct (find_s id (strs c)); simpl; apply nobug_emit; reflexivity.
+Qed.
+Lemma nobug_go_away c code : nobug (snd (go_away c code)).
+Proof. unfold go_away. destruct (0 <=? goaway c); reflexivity. Qed.
+Lemma good_reset_tickle c id code :
+  Inv c -> Inv (fst (then_tickle (reset_stream c id code))) /\ nobug (snd (then_tickle (reset_stream c id code))).
+Proof. intros H. split; [apply Inv_reset_tickle; exact H | apply nobug_then_tickle, nobug_reset]. Qed.
+
+Definition good (r : conn * list val) : Prop := Inv (fst r) /\ nobug (snd r).
+
+Lemma sumbuf_snoc l x : buf x = 0 -> sumbuf (l ++ [x]) = sumbuf l.
+Proof. intros Hx. induction l as [|y l IH]; simpl; [lia|]. rewrite IH. reflexivity. Qed.
+Lemma Inv_add_stream c s mx cu :
+  Inv c -> buf s = 0 -> sok s ->
+  Inv {| strs := strs c ++ [s]; maxid := mx; cur := cu; cinflow := cinflow c; cflow := cflow c;
+         initwin := initwin c; goaway := goaway c; dead := dead c; maxstreams := maxstreams c |}.
+Proof.
+  intros (H1 & H2 & H3) Hb Hs. unfold Inv. simpl. rewrite sumbuf_snoc by exact Hb.
+  split; [exact H1|]. split; [exact H2|]. apply Forall_app. split; [exact H3|]. constructor; [exact Hs|constructor].
+Qed.
+Lemma Inv_set_dead c : Inv c -> Inv (set_dead c).
+Proof. unfold Inv. simpl. auto. Qed.
+Lemma good_process_syn c id fin cl bad : Inv c -> good (process_syn c id fin cl bad).
+Proof.
+  intros H. unfold process_syn.
+  destruct (0 <=? goaway c); [split; [exact H|reflexivity]|].
+  destruct (negb (id mod 2 =? 1) || (id <? maxid c)); [split; [apply Inv_go_away; exact H|apply nobug_go_away]|].
+  destruct (id =? maxid c); [apply good_reset_tickle; exact H|].
+  cbv zeta.
+  match goal with |- context [strs c ++ [?s]] => set (ns := s) end.
+  assert (Hc1 : Inv {| strs := strs c ++ [ns]; maxid := id; cur := cur c + 1; cinflow := cinflow c;
+        cflow := cflow c; initwin := initwin c; goaway := goaway c; dead := dead c; maxstreams := maxstreams c |}).
+  { apply Inv_add_stream; [exact H|reflexivity|].
+    unfold sok, ns, INITWIN. simpl. repeat split; try lia. destruct fin; [discriminate|reflexivity]. }
+  match goal with |- good (if ?b then _ else _) => destruct b end.
+  - split; [apply Inv_set_dead; exact Hc1|reflexivity].
+  - destruct bad; [apply good_reset_tickle; exact Hc1 | split; [exact Hc1|reflexivity]].
+Qed.
+
+
+
+(* take n bytes of window and buffer them (or not): generic accounting step *)
+Lemma Inv_account c id s s' ci :
+  Inv c -> find_s id (strs c) = Some s -> sid s' = id -> sok s' ->
+  0 <= ci -> ci + buf s' <= cinflow c + buf s ->
+  Inv (upd (set_cin c ci) s').
+Proof.
+  intros (H1 & H2 & H3) Hf Hid Hs Hci Hle. unfold Inv, upd, set_cin. simpl.
+  rewrite (sumbuf_update id (strs c) s s' Hf Hid). split; [exact Hci|]. split; [lia|].
+  apply forall_update; assumption.
+Qed.
+
+Lemma find_update id l s s' : find_s id l = Some s -> sid s' = id -> find_s id (update_s s' l) = Some s'.
+Proof.
+  intros Hf Hid. induction l as [|x l IH]; simpl in *; [discriminate|].
+  rewrite Hid. destruct (sid x =? id) eqn:Ex.
+  - simpl. rewrite Hid, Z.eqb_refl. reflexivity.
+  - simpl. rewrite Ex. apply IH. exact Hf.
+Qed.
+Lemma good_process_data c id n fin : Inv c -> 0 <= n -> good (process_data c id n fin).
+Proof.
+  intros H Hn. unfold process_data.
+  destruct (find_s id (strs c)) as [s|] eqn:Hf; [|apply good_reset_tickle; exact H].
+  pose proof (find_s_in _ _ _ Hf) as [_ Hid].
+  assert (Hs : sok s) by (destruct H as (_ & _ & F); eapply find_s_ok; eauto).
+  destruct (sstate s =? 1) eqn:Est; cbn [negb]; [|apply good_reset_tickle; exact H].
+  apply Z.eqb_eq in Est.
+  destruct Hs as (Hs1 & Hs2 & Hs3 & Hs4). rewrite (Hs4 Est). cbn [negb].
+  destruct (negb (decl s =? -1) && (decl s <? bodyb s + n)); [apply good_reset_tickle; exact H|].
+  (* the FIN part *)
+  assert (Hstep2 : forall c0 s0, Inv c0 -> find_s id (strs c0) = Some s0 ->
+            good (if fin then
+                    if negb (decl s0 =? -1) && negb (decl s0 =? bodyb s0) then then_tickle (reset_stream c0 id 1)
+                    else (upd c0 (s_with_in s0 (sinflow s0) (buf s0) (bodyb s0) 3), [])
+                  else (c0, []))).
+  { intros c0 s0 H0 Hf0. destruct fin; [|split; [exact H0|reflexivity]].
+    destruct (negb (decl s0 =? -1) && negb (decl s0 =? bodyb s0)); [apply good_reset_tickle; exact H0|].
+    split; [|reflexivity]. simpl.
+    pose proof (find_s_in _ _ _ Hf0) as [_ Hid0].
+    assert (Hs0 : sok s0) by (destruct H0 as (_ & _ & F); eapply find_s_ok; eauto).
+    eapply Inv_upd_same; [exact H0|exact Hf0|exact Hid0|reflexivity|].
+    destruct Hs0 as (? & ? & ? & ?). unfold sok. simpl. repeat split; try assumption. discriminate. }
+  destruct (0 <? n) eqn:En; [|apply Hstep2; assumption].
+  destruct (zmin (sinflow s) (cinflow c) <? n) eqn:Ew; [apply good_reset_tickle; exact H|].
+  apply Z.ltb_ge in Ew. pose proof (zmin_le_l (sinflow s) (cinflow c)). pose proof (zmin_le_r (sinflow s) (cinflow c)).
+  destruct (bclosed s || (INITWIN <? buf s + n)).
+  - apply good_reset_tickle.
+    change (upd (set_cin c (cinflow c - n)) (s_with_in s (sinflow s - n) (buf s) (bodyb s) 1))
+      with (upd (set_cin c (cinflow c - n)) (s_with_in s (sinflow s - n) (buf s) (bodyb s) 1)).
+    eapply Inv_account; [exact H|exact Hf|exact Hid| |lia|simpl; lia].
+    unfold sok. simpl. repeat split; try lia. intros _. apply Hs4. exact Est.
+  - set (s1 := s_with_in s (sinflow s - n) (buf s + n) (bodyb s + n) 1).
+    assert (HI1 : Inv (upd (set_cin c (cinflow c - n)) s1)).
+    { eapply Inv_account; [exact H|exact Hf|exact Hid| |lia|simpl; lia].
+      unfold sok, s1. simpl. repeat split; try lia. intros _. apply Hs4. exact Est. }
+    apply Hstep2; [exact HI1|].
+    (* the updated stream is the one found under id *)
+    unfold upd, set_cin. cbn [strs]. apply (find_update id (strs c) s s1 Hf). exact Hid.
+Qed.
+
+Lemma good_process_wu c id delta : Inv c -> good (process_wu c id delta).
+Proof.
+  intros H. unfold process_wu.
+  destruct (id =? 0).
+  - destruct (flow_add (cflow c) (wrap32 delta)).
+    + split; [apply Inv_tickle, Inv_set_cflow; exact H|apply nobug_tickle].
+    + split; [apply Inv_go_away; exact H|apply nobug_go_away].
+  - destruct (find_s id (strs c)) as [s|] eqn:Hf; [|split; [exact H|reflexivity]].
+    pose proof (find_s_in _ _ _ Hf) as [_ Hid].
+    assert (Hs : sok s) by (destruct H as (_ & _ & F); eapply find_s_ok; eauto).
+    destruct (flow_add (soflow s) (wrap32 delta)); [|apply good_reset_tickle; exact H].
+    split; [apply Inv_tickle|apply nobug_tickle].
+    eapply Inv_upd_same; [exact H|exact Hf|exact Hid|reflexivity|apply sok_out; exact Hs].
+Qed.
+
+Lemma good_process_rst c id : Inv c -> good (process_rst c id).
+Proof.
+  intros H. unfold process_rst. destruct (find_s id (strs c)).
+  - split; [apply Inv_close; exact H|reflexivity].
+  - destruct (id <=? maxid c); [split; [exact H|reflexivity]|split; [apply Inv_go_away; exact H|apply nobug_go_away]].
+Qed.
+
+Lemma sumbuf_map_g (g : stream -> stream * bool) l :
+  (forall s, buf (fst (g s)) = buf s) -> sumbuf (map fst (map g l)) = sumbuf l.
+Proof. intros Hg. induction l as [|x l IH]; simpl; [reflexivity|]. rewrite IH, Hg. reflexivity. Qed.
+Lemma forall_map_g (g : stream -> stream * bool) l :
+  (forall s, sok s -> sok (fst (g s))) -> Forall sok l -> Forall sok (map fst (map g l)).
+Proof. intros Hg F. induction F as [|x l Hx _ IH]; simpl; constructor; auto. Qed.
+Lemma good_process_settings c v : Inv c -> good (process_settings c v).
+Proof.
+  intros (H1 & H2 & H3). unfold process_settings. cbv zeta.
+  set (g := fun s : stream => match flow_add (soflow s) (wrap32 (wrap32 v - initwin c)) with
+                     | Some n => (s_with_out s n (replied s) (outq s), true)
+                     | None => (s, false) end).
+  assert (Hsum : sumbuf (map fst (map g (strs c))) = sumbuf (strs c)).
+  { apply sumbuf_map_g. intros x. unfold g.
+    destruct (flow_add (soflow x) (wrap32 (wrap32 v - initwin c))); reflexivity. }
+  assert (Hall : Forall sok (map fst (map g (strs c)))).
+  { apply forall_map_g; [|exact H3]. intros x Hx. unfold g.
+    destruct (flow_add (soflow x) (wrap32 (wrap32 v - initwin c))); simpl; [apply sok_out|]; exact Hx. }
+  assert (Hc1 : Inv {| strs := map fst (map g (strs c)); maxid := maxid c; cur := cur c; cinflow := cinflow c;
+                       cflow := cflow c; initwin := wrap32 v; goaway := goaway c; dead := dead c; maxstreams := maxstreams c |}).
+  { unfold Inv. simpl. rewrite Hsum. auto. }
+  destruct (forallb snd (map g (strs c))); [split; [exact Hc1|reflexivity]|].
+  split; [apply Inv_go_away; exact Hc1|apply nobug_go_away].
+Qed.
+
+Lemma good_process_ping c id : Inv c -> good (process_ping c id).
+Proof.
+  intros H. unfold process_ping. destruct (id mod 2 =? 0); [split; [exact H|reflexivity]|].
+  split; [apply Inv_then_tickle; exact H|apply nobug_then_tickle, nobug_emit; reflexivity].
+Qed.
+
+Lemma good_handler_write c id n fin : Inv c -> good (handler_write c id n fin).
+Proof.
+  intros H. unfold handler_write. destruct (find_s id (strs c)) as [s|] eqn:Hf; [|split; [exact H|reflexivity]].
+  pose proof (find_s_in _ _ _ Hf) as [_ Hid].
+  assert (Hs : sok s) by (destruct H as (_ & _ & F); eapply find_s_ok; eauto).
+  cbv zeta. split; [apply Inv_tickle|apply nobug_tickle].
+  eapply Inv_upd_same; [exact H|exact Hf|exact Hid|reflexivity|apply sok_out; exact Hs].
+Qed.
+
+Lemma good_handler_close_body c id : Inv c -> good (handler_close_body c id).
+Proof.
+  intros H. unfold handler_close_body. destruct (find_s id (strs c)) as [s|] eqn:Hf; [|split; [exact H|reflexivity]].
+  pose proof (find_s_in _ _ _ Hf) as [_ Hid].
+  assert (Hs : sok s) by (destruct H as (_ & _ & F); eapply find_s_ok; eauto).
+  destruct (hasbody s); [|split; [exact H|reflexivity]].
+  split; [|reflexivity]. simpl.
+  eapply Inv_upd_same; [exact H|exact Hf|exact Hid|reflexivity|apply sok_bclose; exact Hs].
+Qed.
+
+Lemma good_handler_read c id k :
+  Inv c -> good (fst (handler_read c id k)).
+Proof.
+  intros H. unfold handler_read.
+  destruct (find_s id (strs c)) as [s|] eqn:Hf; [|split; [exact H|reflexivity]].
+  pose proof (find_s_in _ _ _ Hf) as [Hin Hid].
+  assert (Hs : sok s) by (destruct H as (_ & _ & F); eapply find_s_ok; eauto).
+  set (n := zmin k (buf s)).
+  destruct (n <=? 0) eqn:En; [split; [exact H|reflexivity]|]. apply Z.leb_gt in En.
+  pose proof (zmin_le_r k (buf s)) as Hnb. fold n in Hnb.
+  destruct H as (H1 & H2 & H3). destruct Hs as (Hs1 & Hs2 & Hs3 & Hs4).
+  (* the stream's buffered bytes are part of the session total *)
+  assert (Hpart : buf s <= sumbuf (strs c)).
+  { clear -Hin H3. induction (strs c) as [|x l IH]; [destruct Hin|].
+    inversion H3 as [|? ? Hx Hl]; subst. simpl. destruct Hin as [->|Hin].
+    - pose proof (sumbuf_nonneg l Hl). lia.
+    - specialize (IH Hl Hin). destruct Hx as (_ & ? & _). lia. }
+  unfold INITWIN in *.
+  rewrite (flow_add_ok (cinflow c) n) by lia.
+  assert (HI : Inv c) by (unfold Inv, INITWIN; auto).
+  destruct (sstate s =? 3) eqn:E3.
+  - match goal with |- good (fst (let '(c2, fs) := then_tickle ?r in (c2, fs, n))) =>
+      pose proof (Inv_then_tickle r) as HA; pose proof (nobug_then_tickle r) as HB;
+      destruct (then_tickle r) as [c2 fs] end.
+    simpl in *. split.
+    + apply HA. eapply Inv_account; [exact HI|exact Hf|exact Hid| |lia|simpl; lia].
+      unfold sok, INITWIN. simpl. repeat split; try lia; try (intros Hx; discriminate).
+    + apply HB. apply nobug_emit. reflexivity.
+  - rewrite (flow_add_ok (sinflow s) n) by lia.
+    match goal with |- good (fst (let '(c2, fs) := then_tickle ?r in (c2, fs, n))) =>
+      pose proof (Inv_then_tickle r) as HA; pose proof (nobug_then_tickle r) as HB;
+      destruct (then_tickle r) as [c2 fs] end.
+    simpl in *. split.
+    + apply HA. eapply Inv_account; [exact HI|exact Hf|exact Hid| |lia|simpl; lia].
+      unfold sok, INITWIN. simpl. repeat split; try lia. exact Hs4.
+    + apply HB. apply nobug_emit. reflexivity.
+Qed.
+
+(* one event: invariant preserved, no Bug frame; w.f. events carry non-negative DATA lengths *)
+Definition ev_ok (ev : val) : bool :=
+  match ev with VL [VZ 2; VZ _; VZ n; VZ _] => 0 <=? n | _ => true end.
+Lemma good_step c ev c' fs x :
+  Inv c -> ev_ok ev = true -> step c ev = Some (c', fs, x) -> Inv c' /\ has_bug fs = false.
+Proof.
+  intros H Hev Hst. unfold step in Hst.
+  destruct (dead c); [inversion Hst; subst; split; [exact H|reflexivity]|].
+  destruct ev as [z|b|l]; try discriminate.
+  destruct l as [|[t| |] l]; try discriminate.
+  repeat (destruct t as [|t|t]; try discriminate);
+  repeat (destruct l as [|[?z| |] l]; try discriminate).
+  all: try match type of Hst with (let '(_, _) := ?r in _) = _ =>
+         let G := fresh "G" in
+         assert (G : good r) by
+           first [apply good_process_syn; exact H
+                 |apply good_process_data; [exact H|simpl in Hev; apply Z.leb_le; exact Hev]
+                 |apply good_process_wu; exact H
+                 |apply good_process_rst; exact H
+                 |apply good_process_settings; exact H
+                 |apply good_handler_write; exact H
+                 |apply good_handler_close_body; exact H
+                 |apply good_process_ping; exact H];
+         destruct r as [c1 f1]; inversion Hst; subst; exact G end.
+  (* handler read *)
+  match type of Hst with Some (handler_read ?a ?b ?d) = _ =>
+    pose proof (good_handler_read a b d H) as G; destruct (handler_read a b d) as [[c1 f1] x1];
+    inversion Hst; subst; exact G end.
+Qed.
+
+Lemma obs_not_bug c fs x : val_eqb Bug (obs c fs x) = false.
+Proof. unfold obs. destruct (dead c); reflexivity. Qed.
+
+Theorem no_bug_run : forall evs c os cf,
+  Inv c -> forallb ev_ok evs = true -> run_events c evs = Some (os, cf) ->
+  existsb (val_eqb Bug) os = false /\ Inv cf.
+Proof.
+  induction evs as [|ev r IH]; intros c os cf H Hev Hr; simpl in Hr.
+  - inversion Hr; subst. split; [reflexivity|exact H].
+  - simpl in Hev. apply andb_true_iff in Hev. destruct Hev as [He Hev].
+    destruct (step c ev) as [[[c' fs] x]|] eqn:Hs; [|discriminate].
+    destruct (good_step c ev c' fs x H He Hs) as [H' Hb]. rewrite Hb in Hr.
+    destruct (run_events c' r) as [[os' cf']|] eqn:Hr'; [|discriminate].
+    inversion Hr; subst. destruct (IH c' os' cf H' Hev Hr') as [Hn Hc].
+    split; [|exact Hc]. cbn [existsb]. rewrite obs_not_bug. exact Hn.
+Qed.
+
+(* ---------- rule lemmas (single events, any state) ---------- *)
+Lemma then_tickle_head c f fs : exists c' fs', then_tickle (c, f :: fs) = (c', f :: fs').
+Proof. unfold then_tickle. destruct (tickle c) as [c' fs']. eexists. eexists. reflexivity. Qed.
+
+(* DATA larger than the stream's or the session's remaining window is never buffered *)
+Lemma data_over_window_reset c id n fin s :
+  find_s id (strs c) = Some s -> sstate s = 1 -> hasbody s = true ->
+  (decl s = -1 \/ bodyb s + n <= decl s) -> 0 < n -> zmin (sinflow s) (cinflow c) < n ->
+  process_data c id n fin = then_tickle (reset_stream c id 7).
+Proof.
+  intros Hf Hst Hb Hd Hn Hw. unfold process_data. rewrite Hf, Hst, Hb. cbn [Z.eqb negb Pos.eqb].
+  assert (Hov : negb (decl s =? -1) && (decl s <? bodyb s + n) = false).
+  { destruct Hd as [->|Hd]; [reflexivity|]. apply andb_false_iff. right. apply Z.ltb_ge. lia. }
+  rewrite Hov. apply Z.ltb_lt in Hn. rewrite Hn. apply Z.ltb_lt in Hw. rewrite Hw. reflexivity.
+Qed.
+(* accepted DATA takes exactly n from both windows and buffers exactly n *)
+Lemma data_accept c id n s :
+  find_s id (strs c) = Some s -> sstate s = 1 -> hasbody s = true -> decl s = -1 ->
+  0 < n -> n <= zmin (sinflow s) (cinflow c) -> bclosed s = false -> buf s + n <= INITWIN ->
+  process_data c id n false =
+  (upd (set_cin c (cinflow c - n)) (s_with_in s (sinflow s - n) (buf s + n) (bodyb s + n) 1), []).
+Proof.
+  intros Hf Hst Hb Hd Hn Hw Hc Hcap. unfold process_data. rewrite Hf, Hst, Hb, Hd, Hc. cbn [Z.eqb negb Pos.eqb andb orb].
+  apply Z.ltb_lt in Hn. rewrite Hn.
+  assert (E1 : (zmin (sinflow s) (cinflow c) <? n) = false) by (apply Z.ltb_ge; lia). rewrite E1.
+  assert (E2 : (INITWIN <? buf s + n) = false) by (apply Z.ltb_ge; lia). rewrite E2. reflexivity.
+Qed.
+
+(* frames for a stream that is not in the table are answered with RST_STREAM(INVALID_STREAM) *)
+Lemma data_unknown_stream c id n fin :
+  find_s id (strs c) = None ->
+  exists c' fs, process_data c id n fin = (c', emit c [f_rst id 2] ++ fs).
+Proof.
+  intros Hf. unfold process_data, reset_stream. rewrite Hf. unfold then_tickle.
+  destruct (tickle c) as [c' fs']. eexists. eexists. reflexivity.
+Qed.
+(* ... and for a stream the client already half-closed with RST_STREAM(STREAM_ALREADY_CLOSED), closing it *)
+Lemma data_closed_stream c id n fin s :
+  find_s id (strs c) = Some s -> sstate s <> 1 ->
+  process_data c id n fin = then_tickle (close_s c id, emit c [f_rst id 9]).
+Proof.
+  intros Hf Hst. unfold process_data, reset_stream. rewrite Hf.
+  destruct (sstate s =? 1) eqn:E; [apply Z.eqb_eq in E; contradiction|]. reflexivity.
+Qed.
+
+(* SYN_STREAM with an even id, or an id below the largest seen, is a session error PROTOCOL_ERROR *)
+Lemma syn_invalid_id c id fin cl bad :
+  goaway c < 0 -> (id mod 2 <> 1 \/ id < maxid c) ->
+  process_syn c id fin cl bad = go_away c 1 /\ snd (go_away c 1) = [f_goaway (maxid c) 1].
+Proof.
+  intros Hg Hid. unfold process_syn, go_away.
+  assert (E : (0 <=? goaway c) = false) by (apply Z.leb_gt; lia). rewrite E.
+  assert (E2 : negb (id mod 2 =? 1) || (id <? maxid c) = true).
+  { destruct Hid as [Hm|Hl]; [|apply orb_true_iff; right; apply Z.ltb_lt; exact Hl].
+    apply orb_true_iff. left. apply negb_true_iff. apply Z.eqb_neq. exact Hm. }
+  rewrite E2. split; reflexivity.
+Qed.
+(* a second SYN_STREAM for the current highest id is a stream error PROTOCOL_ERROR *)
+Lemma syn_dup_id c id fin cl bad :
+  goaway c < 0 -> id mod 2 = 1 -> id = maxid c ->
+  process_syn c id fin cl bad = then_tickle (reset_stream c id 1).
+Proof.
+  intros Hg Hm He. unfold process_syn.
+  assert (E : (0 <=? goaway c) = false) by (apply Z.leb_gt; lia). rewrite E.
+  rewrite Hm. cbn [Z.eqb Pos.eqb negb orb]. subst id. rewrite Z.ltb_irrefl, Z.eqb_refl. reflexivity.
+Qed.
+
+(* replenish: a handler read of n bytes returns exactly n bytes of session window, WINDOW_UPDATE(0, n) first *)
+Lemma read_replenishes c id k s :
+  Inv c -> find_s id (strs c) = Some s -> 0 < zmin k (buf s) -> muted c = false ->
+  exists c' fs, handler_read c id k = (c', f_wu 0 (zmin k (buf s)) :: fs, zmin k (buf s)).
+Proof.
+  intros H Hf Hn Hm. unfold handler_read. rewrite Hf.
+  pose proof (find_s_in _ _ _ Hf) as [Hin Hid].
+  assert (Hs : sok s) by (destruct H as (_ & _ & F); eapply find_s_ok; eauto).
+  set (n := zmin k (buf s)) in *.
+  assert (En : (n <=? 0) = false) by (apply Z.leb_gt; lia). rewrite En.
+  pose proof (zmin_le_r k (buf s)) as Hnb. fold n in Hnb.
+  destruct H as (H1 & H2 & H3). destruct Hs as (Hs1 & Hs2 & Hs3 & Hs4).
+  assert (Hpart : buf s <= sumbuf (strs c)).
+  { clear -Hin H3. induction (strs c) as [|x l IH]; [destruct Hin|].
+    inversion H3 as [|? ? Hx Hl]; subst. simpl. destruct Hin as [->|Hin].
+    - pose proof (sumbuf_nonneg l Hl). lia.
+    - specialize (IH Hl Hin). destruct Hx as (_ & ? & _). lia. }
+  unfold INITWIN in *.
+  rewrite (flow_add_ok (cinflow c) n) by lia.
+  assert (Hem : forall l, emit (set_cin c (cinflow c + n)) l = l).
+  { intros l. unfold emit, muted in *. simpl. rewrite Hm. reflexivity. }
+  destruct (sstate s =? 3).
+  - rewrite Hem.
+    match goal with |- context [then_tickle (?a, f_wu 0 n :: ?r)] =>
+      destruct (then_tickle_head a (f_wu 0 n) r) as (c' & fs' & E); rewrite E end.
+    eexists. eexists. reflexivity.
+  - rewrite (flow_add_ok (sinflow s) n) by lia. rewrite Hem.
+    match goal with |- context [then_tickle (?a, f_wu 0 n :: ?r)] =>
+      destruct (then_tickle_head a (f_wu 0 n) r) as (c' & fs' & E); rewrite E end.
+    eexists. eexists. reflexivity.
+Qed.
+
+(* ---------- refutation of conservation (known finding 1) ---------- *)
+(* client: DATA 1000 bytes on a stream that does not exist, then opens stream 1, sends 65536 bytes, the handler
+   reads everything.  1000 bytes of session window are never returned. *)
+Definition w_leak : val :=
+  VL [VZ 200; VL [VL [VZ 2; VZ 5; VZ 1000; VZ 0]; VL [VZ 1; VZ 1; VZ 0; VZ (-1); VZ 0];
+                  VL [VZ 2; VZ 1; VZ 64536; VZ 0]; VL [VZ 5; VZ 1; VZ 70000]]].
+Lemma leak_lemma : prop_C40 w_leak (run_C40 w_leak) = false /\ kf_C40 w_leak = 1.
+Proof. vm_compute. split; reflexivity. Qed.
+(* the same exchange without the stray DATA frame satisfies the property *)
+Definition w_noleak : val :=
+  VL [VZ 200; VL [VL [VZ 1; VZ 1; VZ 0; VZ (-1); VZ 0]; VL [VZ 2; VZ 1; VZ 65536; VZ 0]; VL [VZ 5; VZ 1; VZ 100]; VL [VZ 2; VZ 1; VZ 100; VZ 0];
+                  VL [VZ 5; VZ 1; VZ 70000]]].
+Lemma noleak_lemma : prop_C40 w_noleak (run_C40 w_noleak) = true /\ kf_C40 w_noleak = 0.
+Proof. vm_compute. split; reflexivity. Qed.
+
+Theorem no_bug_from_init maxs evs os cf :
+  forallb ev_ok evs = true -> run_events (init_conn maxs) evs = Some (os, cf) ->
+  existsb (val_eqb Bug) os = false /\ Inv cf.
+Proof. intros. eapply no_bug_run; eauto. apply Inv_init. Qed.
+
+(* known finding 2: the response of stream 1 is blocked by the client's send window; the handler reads 30000
+   request bytes; WINDOW_UPDATE(1) stays queued behind the blocked DATA, yet 65536 more bytes are accepted
+   although the client was only told 35536 *)
+Definition w_hol : val :=
+  VL [VZ 200; VL [VL [VZ 1; VZ 1; VZ 0; VZ (-1); VZ 0]; VL [VZ 7; VZ 1; VZ 100000; VZ 0]; VL [VZ 2; VZ 1; VZ 30000; VZ 0];
+                  VL [VZ 5; VZ 1; VZ 70000]; VL [VZ 2; VZ 1; VZ 65536; VZ 0]]].
+Lemma hol_lemma : prop_C40 w_hol (run_C40 w_hol) = false /\ kf_C40 w_hol = 2.
+Proof. vm_compute. split; reflexivity. Qed.
